@@ -34,6 +34,7 @@ fn is_extreme(x: f64) -> bool {
 }
 
 pub fn check(c: &Case, ctx: &mut Ctx) -> Result<(), Failure> {
+    let small_window = c.cfg.p.iter().sum::<usize>() <= 64;
     let k = c.cfg.kind;
     let name = k.name();
     let p = c.cfg.params();
@@ -138,7 +139,10 @@ pub fn check(c: &Case, ctx: &mut Ctx) -> Result<(), Failure> {
                     ("serialize", guarded(|| {
                         let _ = ind.ser();
                         // a self-describing format as well (refusals and unrepresentable states are not C12's business)
-                        let _ = ind.roundtrip_json(false);
+                        // (small windows only: formatting thousands of floats per operation would dominate the fuzz stage)
+                        if small_window {
+                            let _ = ind.roundtrip_json(false);
+                        }
                     }))
                 }
                 #[cfg(not(feature = "serde"))]
